@@ -80,8 +80,8 @@ impl Prop for C10P {
     }
     fn cases(&self, tier: Tier) -> u32 {
         match tier {
-            Tier::Quick => 20_000,
-            Tier::Thorough => 2_000_000,
+            Tier::Quick => 300_000,
+            Tier::Thorough => 10_000_000,
         }
     }
     fn shape(&self, _tier: Tier) -> CaseShape {
